@@ -253,6 +253,30 @@ def run(check):
             idx += 1
             items.append((case, {"shape": "single-step" + ("-sub-workflow" if nested else ""), "program": p}, "one-step-cycle-through-" + field))
             cor_n += 1
+    # dangling references under the optional tags in an output whose schema is given explicitly (nothing is inferred from the
+    # expression there), and in a step input of type `any`
+    STRS = {"type_id": "string"}
+    def osch(props):
+        return {"schema": {"root": "R", "objects": {"R": {"id": "R", "properties": {k: {"type": STRS, "required": False} for k in props}}}}}
+    for kname, r in (("unknown-step", Ref("nosuchstep", "outputs", "success", "tag")), ("unknown-stage", Ref("a", "nosuchstage", "success", "tag")), ("unknown-output", Ref("a", "outputs", "nosuchoutput", "tag")),
+                     ("unknown-field", Ref("a", "outputs", "success", "nosuchfield")), ("unknown-input-field", In("nosuchinput"))):
+        for wait in (False, True):
+            for where in ("explicit-output", "any-step-input"):
+                a = gen.plugin_step("a", Expr(In("tag")))
+                if where == "explicit-output":
+                    p = Program([a], {"success": {"t": gen.tagref("a"), "o": Opt(r, wait)}}, gen.BASE_INPUT, output_schema={"success": osch(["t", "o"])})
+                else:
+                    b = gen.plugin_step("b", gen.tagref("a"), extra_input={"a": {"o": Opt(r, wait)}})
+                    p = Program([a, b], {"success": {"t": gen.tagref("b")}}, gen.BASE_INPUT)
+                case = {"id": "c10-%05d" % idx, "files": p.files(), "scripts": {}, "runs": []}
+                idx += 1
+                items.append((case, {"shape": where, "program": p}, "dangling-%s-under-%s-optional@%s" % (kname, "wait" if wait else "soft", where)))
+                cor_n += 1
+    # the valid twin of the explicit-output programs must be accepted
+    a = gen.plugin_step("a", Expr(In("tag")))
+    p = Program([a], {"success": {"t": gen.tagref("a"), "o": Opt(Ref("a", "outputs", "success", "tag"), False)}}, gen.BASE_INPUT, output_schema={"success": osch(["t", "o"])})
+    items.append(({"id": "c10-%05d" % idx, "files": p.files(), "scripts": {}, "runs": [], "dump_dag": True}, {"shape": "explicit-output-with-optional-member", "program": p}, None))
+    idx += 1
     # the same step registry used for a valid workflow tree and then for one whose sub-workflow file of the same name is
     # corrupted (and the other way round): each preparation must judge the files it is given
     seq_cases = []
